@@ -199,16 +199,6 @@ Definition run_one (falses : list N) (st : estate) (t : task) : estate * list ta
     (add_clauses st1 (map (fun f => mk_constrains so f v) (nonmatching U v)), [])
   end.
 
-Fixpoint enc_loop (fuel : nat) (falses : list N) (st : estate) (work : list task) : option estate :=
-  match work with
-  | [] => Some st
-  | t :: rest =>
-    match fuel with
-    | O => None
-    | S f => let '(st1, w1) := run_one falses st t in enc_loop f falses st1 (rest ++ w1)
-    end
-  end.
-
 Fixpoint queue_solvables (st : estate) (sos : list (option N)) : estate * list task :=
   match sos with
   | [] => (st, [])
@@ -216,14 +206,28 @@ Fixpoint queue_solvables (st : estate) (sos : list (option N)) : estate * list t
                let '(st2, w2) := queue_solvables st1 t in (st2, w1 ++ w2)
   end.
 
-(* Encoder::encode *)
-Definition encode (fuel : nat) (falses : list N) (st : estate) (sos : list (option N)) : option estate :=
-  let '(st1, w) := queue_solvables st sos in enc_loop fuel falses st1 w.
+(* ---------- a whole solve: encoder invocations, completions of the encoder's
+   futures in the order they happen, and the trail ---------- *)
 
-(* ---------- a whole solve: the encoder invocations interleaved with the trail ---------- *)
+Definition task_eqb (a b : task) : bool :=
+  match a, b with
+  | TDeps x, TDeps y => optN_eqb x y
+  | TCands n, TCands m => N.eqb n m
+  | TReq x r, TReq y q => optN_eqb x y && req_eqb r q
+  | TCon x v, TCon y w => optN_eqb x y && N.eqb v w
+  | _, _ => false
+  end.
+
+(* take one pending future out of the set *)
+Fixpoint remove_task (t : task) (w : list task) : option (list task) :=
+  match w with
+  | [] => None
+  | x :: r => if task_eqb x t then Some r else option_map (cons x) (remove_task t r)
+  end.
 
 Inductive sev :=
-| SEncode (sos : list (option N))    (* Encoder::encode(..) with the trail as it is now *)
+| SEncode (sos : list (option N))    (* Encoder::encode(..) is entered with the trail as it is now *)
+| SDone (t : task)                   (* one pending future of the encoder completes and its result is handled *)
 | SSoft (s : N)                      (* soft requirement registered before its run_sat *)
 | STrail (e : event).                (* a change of the trail *)
 
@@ -242,16 +246,39 @@ Definition trail_step (tr : list lit) (e : event) : list lit :=
   | EvClear => []
   end.
 
-Fixpoint enc_solve (fuel : nat) (st : estate) (tr : list lit) (evs : list sev) : option estate :=
+(* ANY completion order: the events say which pending future completes next.
+   [None]: a completion of something that is not pending, or encode entered
+   while futures are pending. *)
+Fixpoint enc_run (st : estate) (work : list task) (tr : list lit) (evs : list sev) : option (estate * list task) :=
   match evs with
-  | [] => Some st
+  | [] => Some (st, work)
   | SEncode sos :: t =>
-    match encode fuel (falses_of tr) st sos with
-    | Some st1 => enc_solve fuel st1 tr t
+    match work with
+    | [] => let '(st1, w) := queue_solvables st sos in enc_run st1 w tr t
+    | _ :: _ => None
+    end
+  | SDone k :: t =>
+    match remove_task k work with
+    | Some work' => let '(st1, w1) := run_one (falses_of tr) st k in enc_run st1 (work' ++ w1) tr t
     | None => None
     end
-  | SSoft s :: t => enc_solve fuel (register st s) tr t
-  | STrail e :: t => enc_solve fuel st (trail_step tr e) t
+  | SSoft s :: t => enc_run (register st s) work tr t
+  | STrail e :: t => enc_run st work (trail_step tr e) t
+  end.
+
+(* the synchronous runtime completes futures first-in first-out *)
+Fixpoint fifo_ok (st : estate) (work : list task) (tr : list lit) (evs : list sev) : bool :=
+  match evs with
+  | [] => true
+  | SEncode sos :: t =>
+    let '(st1, w) := queue_solvables st sos in fifo_ok st1 w tr t
+  | SDone k :: t =>
+    match work with
+    | x :: work' => task_eqb x k && let '(st1, w1) := run_one (falses_of tr) st k in fifo_ok st1 (work' ++ w1) tr t
+    | [] => false
+    end
+  | SSoft s :: t => fifo_ok (register st s) work tr t
+  | STrail e :: t => fifo_ok st work (trail_step tr e) t
   end.
 
 (* the trail the events leave behind *)
@@ -270,6 +297,7 @@ Fixpoint req_true_ok (tr : list lit) (evs : list sev) : bool :=
   | [] => true
   | SEncode sos :: t => forallb (is_true tr) sos && req_true_ok tr t
   | SSoft _ :: t => req_true_ok tr t
+  | SDone _ :: t => req_true_ok tr t
   | STrail e :: t => req_true_ok (trail_step tr e) t
   end.
 
@@ -325,20 +353,23 @@ Fixpoint pcalls_eqb (a b : list pcall) : bool :=
 Definition encoder_clauses (db : list cl) : list cl :=
   filter (fun c => negb (is_learnt c) && match ck c with KRoot => false | _ => true end) db.
 
-(* first solve on a fresh solver *)
-Definition check_encoder (U : provider) (P : problem) (fuel : nat) (evs : list sev)
-           (db : list cl) (calls : list pcall) : bool * bool :=
-  match enc_solve U P fuel (estate0 cache0) [] evs with
-  | Some st => (cls_same (encoder_clauses db) (e_db st), pcalls_eqb calls (e_calls st))
-  | None => (false, false)
+(* first solve on a fresh solver: model database and calls for the logged
+   completion order; all futures completed when encode returned / at the end *)
+Definition check_encoder (U : provider) (P : problem) (evs : list sev)
+           (db : list cl) (calls : list pcall) : bool * bool * bool :=
+  match enc_run U P (estate0 cache0) [] [] evs with
+  | Some (st, work) =>
+      (cls_same (encoder_clauses db) (e_db st), pcalls_eqb calls (e_calls st),
+       match work with [] => true | _ => false end)
+  | None => (false, false, false)
   end.
 
 (* for a run that ended with a solution: requests only for true variables, the
    events leave the dumped trail, everything selected was encoded *)
-Definition check_encoder_final (U : provider) (P : problem) (fuel : nat) (evs : list sev)
+Definition check_encoder_final (U : provider) (P : problem) (evs : list sev)
            (trail : list lit) : bool * bool * bool :=
-  match enc_solve U P fuel (estate0 cache0) [] evs with
-  | Some st =>
+  match enc_run U P (estate0 cache0) [] [] evs with
+  | Some (st, _) =>
       let tr := final_trail [] evs in
       (req_true_ok [] evs, lits_eqb (rev tr) trail,
        enc_final_ok U st (sel_of tr) (exempt P (sel_of tr)))
